@@ -422,3 +422,44 @@ def per_input_keys(ctx):
         ctx.unsure('%s: conversion of raw keys not found' % q)
     for c in conv:
         ctx.require(id(c) in inside, q, 'raw keys are converted to Key objects outside the per-input loop', c)
+
+
+@PROP.obligation('C01.bip143-hashtypes', canaries=[
+    mut.replace_expr('transactions', 'Transaction.signature_segwit', 'hash_type & 31 != SIGHASH_SINGLE and hash_type & 31 != SIGHASH_NONE', 'True', 'hashSequence committed for ANYONECANPAY-less SINGLE / NONE', nth=0),
+])
+def bip143_hashtypes(ctx):
+    """Transaction.signature_segwit is evaluated for the sighash types 0x01, 0x02, 0x03, 0x81, 0x82, 0x83 (the digest a parsed transaction
+    is CHECKED with): hashPrevouts is 32 zero bytes exactly with ANYONECANPAY; hashSequence is zero with ANYONECANPAY, SINGLE or NONE;
+    hashOutputs covers all outputs for ALL, nothing (zero) for NONE and only the output with the input's index for SINGLE."""
+    q = 'transactions:Transaction.signature_segwit'
+    fn = ctx.repo.func(q)
+    sid = ('var', 'sign_id')
+    Z = b'\x00' * 32
+    full = canon_layout(_expected_bip143(sid, b'\x01\x00\x00\x00'))
+    exp_parts = flatten_cat(full)
+    for ht in (0x01, 0x02, 0x03, 0x81, 0x82, 0x83):
+        it = Interp(ctx.repo, 'transactions', hooks=LAYOUT_HOOKS, self_cls='transactions:Transaction')
+        exits = it.run_function(fn, {'sign_id': S(sid, 'int'), 'hash_type': ht})
+        rets = [e for e in exits if e.kind == 'return']
+        if len(rets) != 1:
+            ctx.undecided('signature_segwit: %d return paths for hash type 0x%02x' % (len(rets), ht))
+        parts = list(flatten_cat(canon_layout(term(rets[0].value))))
+        if len(parts) == 10 and isinstance(parts[1], bytes) and len(parts[1]) == 64:
+            parts[1:2] = [parts[1][:32], parts[1][32:]]      # two adjacent constants (zero hashPrevouts . zero hashSequence) were merged
+        if len(parts) != 11:
+            ctx.undecided('signature_segwit(0x%02x): %d layout parts' % (ht, len(parts)))
+        acp, base = bool(ht & 0x80), ht & 0x1f
+        hp, hs, ho = parts[1], parts[2], parts[8]
+        ctx.saw('0x%02x: hashPrevouts %s | hashSequence %s | hashOutputs %s' % (ht, 'zero' if hp == Z else 'hash', 'zero' if hs == Z else 'hash', 'zero' if ho == Z else show(ho)[:60]))
+        ctx.require((hp == Z) == acp and (acp or hp == exp_parts[1]), q, 'hash type 0x%02x: hashPrevouts is %s' % (ht, 'zero' if hp == Z else 'a hash'), fn, 'BIP143 digest of that hash type differs from consensus')
+        want_hs_zero = acp or base in (2, 3)
+        ctx.require((hs == Z) == want_hs_zero and (want_hs_zero or hs == exp_parts[2]), q, 'hash type 0x%02x: hashSequence is %s, BIP143 says %s' % (ht, 'zero' if hs == Z else 'a hash', 'zero' if want_hs_zero else 'the hash of all sequences'), fn,
+                    'a valid network transaction signed with this hash type fails verification')
+        if base == 1:
+            ctx.require(ho == exp_parts[8], q, 'hash type 0x%02x: hashOutputs does not cover all outputs' % ht, fn)
+        elif base == 2:
+            ctx.require(ho == Z, q, 'hash type 0x%02x (NONE): hashOutputs is %s, BIP143 says 32 zero bytes' % (ht, show(ho)[:80]), fn, 'a valid SIGHASH_NONE segwit input fails verification')
+        else:
+            uses_own = any(isinstance(s_, tuple) and s_[0] == 'index' and s_[1] == A(SELF, 'outputs') and s_[2] == sid for s_ in subterms(('w', ho)))
+            ctx.require(ho != Z and uses_own and ho != exp_parts[8], q, 'hash type 0x%02x (SINGLE): hashOutputs is %s, BIP143 says the hash of the output with the same index' % (ht, 'zero' if ho == Z else show(ho)[:80]), fn,
+                        'a valid SIGHASH_SINGLE segwit input fails verification')
